@@ -524,7 +524,11 @@ func (ms *RocksStorage) addEntries(batch engine.WriteBatch, entries []pb.Entry) 
 		return err
 	}
 
-	ms.writeEnts(batch, entries)
+	err = ms.writeEnts(batch, entries)
+	if err != nil {
+		batch.Clear()
+		return err
+	}
 	laste := entries[len(entries)-1].Index
 	ms.setCachedLastIndex(laste)
 	if laste < last {
